@@ -81,6 +81,7 @@ partial def toExpr : SExp → Option Expr
   | .list [.atom "era", c] => do let c ← toExpr c; pure (.un .erase c)
   -- harness-only wrappers that must be transparent: `rtk` = a receiver boundary whose stop token is a counting wrapper
   -- (monitor: no callback registered when a completion passes), `lvt` = let_value_with_stop_token(λtoken. child)
+  | .list [.atom "mob", c] => do let c ← toExpr c; pure (.un .matObs c)
   | .list [.atom "rtk", c] => do let c ← toExpr c; pure (.un .erase c)
   | .list [.atom "lvt", c] => do let c ← toExpr c; pure (.un .erase c)
   | .list [.atom "iv", c] => do let c ← toExpr c; pure (.un .intoVariant c)
